@@ -98,3 +98,11 @@ d = json.load(open(p))
 d["fixed"] = fixed
 json.dump(d, open(p, "w"), indent=1)
 print(len(fixed), "fixed entries;", len(d["findings"]), "open findings")
+
+# keep DESIGN.md's copy of the list (section 6.1, "Current content:") in step
+_p = "/verif/DESIGN.md"
+_lines = open(_p).read().split("\n")
+_idx = [i for i, l in enumerate(_lines) if l.startswith("* `fixed: property=")]
+if _idx and all(_lines[i].startswith("* `fixed: property=") for i in range(_idx[0], _idx[-1] + 1)):
+    _lines[_idx[0]:_idx[-1] + 1] = ["* `" + f + "`" for f in d["fixed"]]
+    open(_p, "w").write("\n".join(_lines))
